@@ -6,8 +6,8 @@ from props import C01, rwcommon as rc
 
 ID = "C10"
 PROP_FILE = "props/C10.v"
-COQ_TARGETS = ["props/C10.v", "model/FragLoop.v"]
-THEOREMS = ["C10_guard_branches_agree", "C10_erase_sound", "C10_frag_results", "C10_frag_plain", "C10_frag_stream"]
+COQ_TARGETS = ["props/C10.v", "model/FragLoop.v", "model/FragFun.v"]
+THEOREMS = ["C10_guard_branches_agree", "C10_erase_sound", "C10_frag_results", "C10_frag_plain", "C10_frag_stream", "C10_fun_results", "C10_fun_plain", "C10_fun_stream"]
 TRUSTED_BASE = C01.TRUSTED_BASE + [
     "model/FragLoop.v (while loops, the two guards of a loop, pristine copies, try / finally, evaluation under an arbitrary guard policy on fuel, the gated reference "
     "stream), tied by K-loop (tools/impl/c10_sem.py: real rewriter output tree with guard names canonicalised to (kind, loop), real runs whose handler activates / "
@@ -122,7 +122,7 @@ def run(ctx, model_ok):
         if not ok3:
             ctx.tie_broken("correspondence", "model/FragLoop.v does not build", out3)
         else:
-            extra_l = [dict(x) for x in getattr(ctx, "known_replays", []) + getattr(ctx, "fixed_replays", []) if "rules" in x]
+            extra_l = [dict(x) for x in getattr(ctx, "known_replays", []) + getattr(ctx, "fixed_replays", []) if "rules" in x and x.get("frag") != "fun"]
             nl, okl, distl, viol = fragloop.check(ctx, rng, 60 if ctx.tier == "quick" else 800, extra_cases=extra_l)
             for f in viol[:2]:
                 f.update({"signature": "unlisted", "kind_": "oracle", "harness": "c10_sem.py"})
@@ -132,6 +132,9 @@ def run(ctx, model_ok):
             r["distribution"]["k_loop_programs"] = nl
             r["distribution"]["k_loop_agreeing"] = okl
             r["distribution"]["k_loop_detail"] = distl
+        # functions and function guards on the fragment: model/FragFun.v (K-fun)
+        from props import fragfun
+        fragfun.run_into(ctx, rng, r, 40 if ctx.tier == "quick" else 600)
     r["evaluations"] += len(ls)
     r["distribution"]["loop_silence_programs"] = len(ls)
     r["distribution"]["loop_guards_activated"] = nsil
@@ -154,6 +157,9 @@ def replay(ctx, rep):
         return oracle_silence(case, C01.run_impl([case])[0])
     if case.get("silence"):
         return oracle_loop_silence(case, C01.run_impl([case])[0])
+    if case.get("frag") == "fun":
+        from props import fragfun
+        return fragfun.replay_case(case)
     if "rules" in case:
         from props import fragloop
 
